@@ -3,6 +3,10 @@
 (* RFC 4180 CSV as written by the result and distance-matrix exporters:    *)
 (* a writer (minimal quoting) and a reader, both as folds over code points.*)
 (* term = "LF" (query results) or "CRLF" (distance matrices).              *)
+(* The LF-dialect reader is the common consumer (Python's csv.reader,      *)
+(* pandas, spreadsheets): outside quotes LF, CR and CRLF each end a record, *)
+(* whatever terminator the writer used - so a field holding a lone CR must  *)
+(* be quoted by the writer like one holding LF.                            *)
 (***************************************************************************)
 EXTENDS Base, SequencesExt
 
@@ -13,10 +17,14 @@ CsvInit == [rows |-> <<>>, row |-> <<>>, fld |-> <<>>, mode |-> "start", bad |->
 EndField(st) == [st EXCEPT !.row = Append(st.row, st.fld), !.fld = <<>>, !.mode = "start"]
 EndRow(st) == LET e == EndField(st) IN [e EXCEPT !.rows = Append(e.rows, e.row), !.row = <<>>]
 
+RECURSIVE CsvStep(_, _, _)
 CsvStep(term, st, ch) ==
   CASE st.mode = "quoted" -> IF ch = cQ THEN [st EXCEPT !.mode = "qq"] ELSE [st EXCEPT !.fld = Append(st.fld, ch)]
     [] st.mode = "qq" /\ ch = cQ -> [st EXCEPT !.fld = Append(st.fld, cQ), !.mode = "quoted"]
     [] st.mode = "cr" -> IF ch = cLF THEN EndRow([st EXCEPT !.mode = "plain"]) ELSE [st EXCEPT !.bad = TRUE]
+    [] st.mode = "crskip" -> IF ch = cLF THEN [st EXCEPT !.mode = "start"] ELSE CsvStep(term, [st EXCEPT !.mode = "start"], ch)
+    [] ch = cCR /\ term = "LF" /\ st.mode # "qq" -> [EndRow(st) EXCEPT !.mode = "crskip"]
+    [] ch = cCR /\ term = "LF" -> [EndRow([st EXCEPT !.mode = "plain"]) EXCEPT !.mode = "crskip"]      \* CR right after a closing quote
     [] ch = cComma -> EndField(st)
     [] ch = cLF -> IF term = "LF" THEN EndRow(st) ELSE [st EXCEPT !.bad = TRUE]
     [] ch = cCR /\ term = "CRLF" -> [st EXCEPT !.mode = "cr"]
@@ -29,12 +37,12 @@ CsvStep(term, st, ch) ==
 CsvParse(term, txt) ==
   LET f == FoldLeft(LAMBDA st, ch : CsvStep(term, st, ch), CsvInit, txt) IN
   IF f.bad \/ f.mode \in {"quoted", "cr"} THEN <<"malformed">>
-  ELSE IF f.row = <<>> /\ f.fld = <<>> /\ f.mode = "start" THEN f.rows
+  ELSE IF f.row = <<>> /\ f.fld = <<>> /\ f.mode \in {"start", "crskip"} THEN f.rows
   ELSE Append(f.rows, Append(f.row, f.fld))
 
 \* ------------------------------------------------------------------ writer (minimal quoting)
 NeedsQuote(term, fld) ==
-  \E i \in DOMAIN fld : fld[i] \in ({cQ, cComma, cLF} \cup (IF term = "CRLF" THEN {cCR} ELSE {}))
+  \E i \in DOMAIN fld : fld[i] \in {cQ, cComma, cLF, cCR}
 QuoteField(fld) == <<cQ>> \o FlattenSeq([i \in DOMAIN fld |-> IF fld[i] = cQ THEN <<cQ, cQ>> ELSE <<fld[i]>>]) \o <<cQ>>
 WriteField(term, fld) == IF NeedsQuote(term, fld) THEN QuoteField(fld) ELSE fld
 Term(term) == IF term = "LF" THEN <<cLF>> ELSE <<cCR, cLF>>
